@@ -33,6 +33,19 @@ def collect(h):
     if by_map == ordered:
         raise h.Missing(f"{rel}: cannot decide the order of the per-operation rules in applyGrantOrRevokeRule")
     items.append(("parser_grant_rules_sorted", "bool", "true" if ordered else "false", rel + " applyGrantOrRevokeRule"))
+    # does the analyser itself refuse a view without partition key group / a GRANT ... ON ALL <class> that
+    # matches nothing in its workspace, or is builder.Build() the first to object? (C16-F6, C16-F7)
+    rel = "pkg/parser/impl_analyse.go"
+    body = h.func_body(rel, r"^func analyzeView\(", "analyzeView")
+    h.find(rel, r"ErrClusteringColumnsNotDefined", "analyzeView: clustering columns check")
+    rel2 = "pkg/parser/impl_build.go"
+    body2 = h.func_body(rel2, r"^func \(c \*buildContext\) views\(", "views")
+    pk_pat = r"len\(view\.pkRef\.PartitionKeyFields\)\s*==\s*0"
+    items.append(("parser_checks_view_partition_key", "bool",
+                  "true" if (re.search(pk_pat, body) or re.search(pk_pat, body2)) else "false", rel + " analyzeView / " + rel2 + " views"))
+    rel = "pkg/parser/impl_build.go"
+    body = h.func_body(rel, r"^func \(c \*buildContext\) grantsAndRevokes\(", "grantsAndRevokes")
+    items.append(("parser_checks_grant_matches", "bool", "true" if re.search(r"FirstFilterMatch\(", body) else "false", rel + " grantsAndRevokes"))
     # the parser's identifier rule: a letter followed by at most 254 word characters
     rel = "pkg/parser/const.go"
     h.find(rel, r'identifierRegexp\s*=\s*`\(\[a-zA-Z\]\\w\{0,254\}\)\|\("\[a-zA-Z\]\\w\{0,254\}"\)`', "identifierRegexp")
